@@ -2,7 +2,7 @@
    handler got, and what the handler answered is what the caller's reader saw. The expected observable is
    the identity on the guarded domain (path values non-empty and not dot segments; the generator stays inside it),
    so correspondence and property predicate coincide here; the theorems in Props/Properties_C04.v say why. *)
-From V Require Export Bytes CaseLib.
+From V Require Export Bytes CaseLib HeaderWire.
 
 Definition kv_eqb (a b : bytes * list bytes) : bool :=
   bytes_eqb (fst a) (fst b) && list_eqb bytes_eqb (snd a) (snd b).
@@ -18,6 +18,9 @@ Inductive case :=
 | CRoundSeq (panicked : bool) (steps : list (bool * bool * list (bytes * list bytes) * list (bytes * list bytes)))
 (* calls submitted at the same time, each against its own server (uploads in flight together): per call
    (failed, handler ran + credential + response intact, supplied, received); large files appear as digest + length *)
+(* one header parameter: declared name, the value the caller set, the line found on the wire for it and the line after
+   it, whether the call failed, whether the handler ran, the value the handler got (empty when absent) *)
+| CHdrWire (name v rawline nextline : bytes) (failed ran : bool) (received : bytes)
 | CRoundPar (calls : list (bool * bool * list (bytes * list bytes) * list (bytes * list bytes))).
 
 Definition check_case (c : case) : N :=
@@ -34,6 +37,18 @@ Definition check_case (c : case) : N :=
               forallb (fun st => match st with (failed, right_op, supplied, received) =>
                                    negb failed && right_op && list_eqb kv_eqb supplied received end) steps in
     verdict ok ok
+  | CHdrWire name v rawline nextline failed ran received =>
+    let k := canonical_name name in
+    let corr :=
+      bytes_eqb (hdr_write k v) rawline &&
+      match read_header (rawline ++ nextline) with
+      | HdrField key value rest =>
+        bytes_eqb key k && bytes_eqb rest nextline && negb failed && ran && bytes_eqb value received
+      | _ => failed && negb ran          (* the server refuses the request as malformed *)
+      end in
+    let prop := if hdr_name_ok name && hdr_value_ok v
+                then negb failed && ran && bytes_eqb received v else true in
+    verdict corr prop
   | CRoundPar calls =>
     let ok := forallb (fun st => match st with (failed, rest_ok, supplied, received) =>
                                    negb failed && rest_ok && list_eqb kv_eqb supplied received end) calls in
